@@ -72,7 +72,7 @@ func c15(x *ctx) {
 	}
 	rec(nil)
 	bodies := []string{"ret-param", "to_s", "plus", "upcase", "early-return", "as-argument"}
-	arrangements := []string{"def-first", "calls-first", "calls-in-method", "via-second-method"}
+	arrangements := []string{"def-first", "calls-first", "calls-in-method", "via-second-method", "endless-def-between"}
 	for _, tu := range tuples {
 		u := union(tu)
 		for _, body := range bodies {
@@ -182,6 +182,23 @@ func c15(x *ctx) {
 					line("  1")
 					line("end")
 					line("g")
+				case "endless-def-between":
+					// an endless definition without parameter list between the call sites
+					defn()
+					for i, t := range tu {
+						if i == 1 || len(tu) == 1 {
+							line("def zlabel = \"x\"")
+						}
+						if i == 0 {
+							line("dbtp f(" + tyLit[t] + ")")
+							if retWant != "" {
+								probes = append(probes, probe{row: row, want: retWant, wantDiag: -1, what: "call-result"})
+							}
+						} else {
+							line("f(" + tyLit[t] + ")")
+						}
+					}
+					line("def zlast = f(" + tyLit[tu[len(tu)-1]] + ")")
 				case "via-second-method":
 					defn()
 					line("def h(z)")
